@@ -251,8 +251,8 @@ func lastDigitNeighbour(s string) string {
 
 func c13Run(r *mon.Run) {
 	// (1) grammar: every string over the alphabet up to length L
-	alpha := []string{"0", "1", "9", "-", "+", ".", "e", "E", "x"}
-	L := r.Pick(7, 9)
+	alpha := []string{"0", "1", "9", "-", "+", ".", "e", "E", "x", ":", "/"} // ':' and '/' are the neighbours of the digit range
+	L := r.Pick(6, 8)
 	k := 0
 	gen.TokensSharded(alpha, L, r.Shard, mon.LogicalShards, func(s []byte, n int) bool {
 		if n == 1 && r.Shard != 0 {
@@ -412,7 +412,7 @@ func init() {
 				c13Pair(r, c.A, c.B, na, nb)
 			}
 		},
-		Rule:               "grammar: every string over {0 1 9 - + . e E x} up to length 7 (quick) / 9 (thorough) is given to NewNumber and compared with the RFC 8259 number regex; for accepted strings String() must be a plain numeral denoting the same exact decimal and LengthOfFractionalPart() the number of significant fraction digits. exponents spelled with up to 40 leading zeros; 13 mantissa shapes x 8 exponents around the resource bound (a text that is accepted there must compare with its own mantissa as exact arithmetic says). order of calls: each of 20 refused texts (grammar, exponent beyond the resource bound, empty, foreign bytes) is followed by fully judged parses of 15 plain numbers, and one random pair in 50 is preceded by a refused huge-exponent text. comparison: all ordered pairs of the grammatical strings of length <= 5 over {0 1 9 - . e E +}, plus random pairs with up to 46 mantissa digits and exponents up to 3000 (equal-by-shift, last-digit neighbours, unrelated), each compared both ways: Cmp/Equal/GT/GTE/LT/LTE vs exact decimal comparison, and String() / LengthOfFractionalPart() of both operands unchanged by the comparison (cross-checked with math/big.Rat for small exponents). distinct_nontrivial = distinct strings and pairs (hashed).",
+		Rule:               "grammar: every string over {0 1 9 - + . e E x : /} up to length 6 (quick) / 8 (thorough) is given to NewNumber and compared with the RFC 8259 number regex; for accepted strings String() must be a plain numeral denoting the same exact decimal and LengthOfFractionalPart() the number of significant fraction digits. exponents spelled with up to 40 leading zeros; 13 mantissa shapes x 8 exponents around the resource bound (a text that is accepted there must compare with its own mantissa as exact arithmetic says). order of calls: each of 20 refused texts (grammar, exponent beyond the resource bound, empty, foreign bytes) is followed by fully judged parses of 15 plain numbers, and one random pair in 50 is preceded by a refused huge-exponent text. comparison: all ordered pairs of the grammatical strings of length <= 5 over {0 1 9 - . e E +}, plus random pairs with up to 46 mantissa digits and exponents up to 3000 (equal-by-shift, last-digit neighbours, unrelated), each compared both ways: Cmp/Equal/GT/GTE/LT/LTE vs exact decimal comparison, and String() / LengthOfFractionalPart() of both operands unchanged by the comparison (cross-checked with math/big.Rat for small exponents). distinct_nontrivial = distinct strings and pairs (hashed).",
 		MinNontrivialQuick: 200000, MinNontrivialThorough: 2000000,
 		Assumptions: []string{"reference: harness/internal/ref/decimal.go (exact normalised decimals) cross-checked against math/big.Rat", "exponents with more than 3000 in magnitude are only probed at a few fixed points (memory)"},
 		Exhaustive:  "all strings up to the stated length over the 9-byte alphabet; all ordered pairs of grammatical strings up to the stated length",
